@@ -298,11 +298,13 @@ def run_item(item):
 def main(tier):
     t0 = time.time()
     common.use_source()
-    FB[0] = 1 if tier == 'quick' else 2
     items = []
     for w, pb in worlds(tier):
-        nsh = 16 if pb >= 2 else 1
-        items += [(w, pb, s, nsh) for s in range(nsh)]
+        if tier == 'quick':
+            items.append((w, 1, 0, 1, 1))
+        else:       # two passes: more preemptions with few free switches, and vice versa
+            items += [(w, 2, s, 8, 1) for s in range(8)]
+            items.append((w, 1, 0, 1, 2))
     total = Stats()
     for st in common.pmap(run_item, items):
         total.merge(st)
